@@ -78,7 +78,7 @@ func importsOfFile(src string) map[string]string {
 		return m
 	}
 	for _, is := range f.Imports {
-		if is.Name != nil {
+		if is.Name != nil && is.Name.Name != "_" { // (a blank import binds no name: it is the generator's own rendering, not the import table's)
 			m[strings.Trim(is.Path.Value, `"`)] = is.Name.Name
 		}
 	}
@@ -608,6 +608,18 @@ func genFmtCase(r *Rng) *fmtCase {
 			}
 		}
 		s.Custom[key] = items
+	}
+	if r.Chance(10) {
+		// the first thing rendered is an import declaration of the generator's own (blank imports, which the import table
+		// cannot express): specs repeated, standard-library and module packages mixed in one group, in any order
+		first := c01Gen + "@" + self + "@" + string(rune('C'-(nt-1)))
+		lib := s.Mod + "/lib"
+		decl := Pick(r, []string{
+			fmt.Sprintf("import (\n\t_ %q\n\t_ \"embed\"\n\t_ %q\n\t_ \"embed\"\n)\n\n", lib, lib),
+			fmt.Sprintf("import (\n\t_ \"embed\"\n\t_ %q\n\t_ \"unsafe\"\n)\n\n", lib),
+			fmt.Sprintf("import (\n\t_ %q\n\t_ %q\n\t_ \"time\"\n\t_ \"embed\"\n\t_ \"time\"\n)\n\n", lib, lib),
+		})
+		s.Custom[first] = append([]PItem{{K: "block", S: decl}}, s.Custom[first]...)
 	}
 	if hasLocal {
 		p.Types = append(p.Types, PType{Name: "Local", Kind: "s", Tags: []PTag{{"gengo:rec", []string{"false"}}}})
